@@ -152,3 +152,25 @@ def unit_dual_quaternion_route(env, cfg, ck):
     p = env.reals('p', 3)
     r = ck.call(lambda: d * p)
     ck.eq('value', r, R @ np.array(p) + np.array(t), tol=1e-9, scale=pscale(np, t, p))
+
+
+@contract('C06', targets=['spatialmath.quaternion.UnitQuaternion.__mul__', 'spatialmath.super_pose.SMPose.__mul__'], configs=product(route=['UnitQuaternion', 'SO3', 'SE3']))
+def integer_point_arrays(env, cfg, ck):
+    """points given as an integer-typed d x N array are transformed exactly like real-typed ones (no truncation)"""
+    np, sm = env.np, env.sm
+    q = env.unitvec('q', 4)
+    R = A.quat_to_R(np, q)
+    P = np.array([[1, 2, -3], [4, 0, 6], [7, -8, 9]])           # integer dtype, N = 3
+    if cfg['route'] == 'UnitQuaternion':
+        X, t = sm.UnitQuaternion(np.array(q)), np.zeros(3)
+    elif cfg['route'] == 'SO3':
+        X, t = sm.SO3(R, check=False), np.zeros(3)
+    else:
+        tt = env.reals('t', 3)
+        X, t = sm.SE3(A.homog(np, R, tt), check=False), np.array(tt)
+    snap = ck.snapshot(P)
+    r = ck.call(lambda: X * P)
+    ck.unchanged('points-unchanged', snap)
+    ck.true('shape', tuple(r.shape) == (3, 3))
+    for j in range(3):
+        ck.eq('col%d' % j, r[:, j], R @ np.array([P[0, j], P[1, j], P[2, j]]) + t, scale=200 + A.normsq(np, t))
